@@ -8,7 +8,7 @@
 -/
 import Cog.Sem.WidenId
 import Cog.Sem.DenMono
-namespace Cog.Sem
+namespace Cog.Sem.Src
 open Cog.IR Cog.Passes
 open Cog.OMap (rget)
 
@@ -326,4 +326,4 @@ theorem PrefixEnumValues_den (S S' : Schemas) (h : PrefixEnumValues.run S = .ok 
   have hr := PEV_run_rel S S' h
   exact ⟨den_rel S S' (fun pkg name => locateObject_schsRel pkg name S S' hr), schsRel_Plain S S' hr⟩
 
-end Cog.Sem
+end Cog.Sem.Src
